@@ -1,15 +1,16 @@
 #!/usr/bin/python3
 """Metamorphic self-test of the checker.  The program database is loaded with every comparison between two non-constant operands
 spelt the other way round (OFVERIF_MIRROR: a < b -> b > a) or with every conditional branch negated and its successors exchanged
-(OFVERIF_NEGATE: if (c) X else Y -> if (!c) Y else X).  Both are the same program, so (1) every check must still pass on the
+(OFVERIF_NEGATE: if (c) X else Y -> if (!c) Y else X), or with the operands of every commutative operation exchanged
+(OFVERIF_COMMUTE: a + b -> b + a, 31 & x -> x & 31).  Each is the same program, so (1) every check must still pass on the
 unchanged tree in both tiers and (2) every mutant of the self-test must still be reported.  Usage: tools/metamorphic.py [-j N]"""
 import os, subprocess, sys
 V = os.path.dirname(os.path.dirname(os.path.abspath(__file__)))
 j = sys.argv[sys.argv.index('-j') + 1] if '-j' in sys.argv else '16'
 props = ['C%02d' % i for i in range(1, 20)]
 bad = 0
-for mode in ('OFVERIF_MIRROR', 'OFVERIF_NEGATE'):
-    env = dict(os.environ, **{mode: '1', 'OFVERIF_FREEZING': '1', 'OFVERIF_EVIDENCE_DIR': '/tmp/of-meta-ev', 'OFVERIF_REPLAY_DIR': '/tmp/of-meta-ev'})
+for mode, val in (('OFVERIF_MIRROR', '1'), ('OFVERIF_NEGATE', '1'), ('OFVERIF_COMMUTE', '2')):
+    env = dict(os.environ, **{mode: val, 'OFVERIF_FREEZING': '1', 'OFVERIF_EVIDENCE_DIR': '/tmp/of-meta-ev', 'OFVERIF_REPLAY_DIR': '/tmp/of-meta-ev'})
     for tier in ('quick', 'thorough'):
         for p in props:
             r = subprocess.run([os.path.join(V, 'check'), p, '--tier', tier], env=env, stdout=subprocess.PIPE, stderr=subprocess.STDOUT,
